@@ -1151,13 +1151,25 @@ func (root *Root) AddEvent(id string, event interface{}) (cnt int, err error) {
 }
 
 func (root *Root) assureSchema() {
-	if root.schema == nil {
-		root.schema = &Schema{Object: Object{fields: fieldList{dict: map[string]*FieldDef{}}}}
-		for _, cap := range []string{"Query", "Mutation", "Subscription"} {
-			if t := root.types.get(cap); t != nil {
-				name := strings.ToLower(cap)
-				_ = root.schema.fields.add(&FieldDef{Base: Base{N: name}, Type: t})
-			}
+	if root.schema != nil && !root.schema.implied {
+		return
+	}
+	// An implied schema is made again on every load so that a Query,
+	// Mutation or Subscription type that arrives in a later load becomes a
+	// root operation type just as if it had arrived in the first. A new
+	// Schema is made, the previous one is put back if the load fails.
+	schema := &Schema{Object: Object{fields: fieldList{dict: map[string]*FieldDef{}}}, implied: true}
+	if root.schema != nil {
+		schema.Base = root.schema.Base
+		for _, fd := range root.schema.fields.list {
+			_ = schema.fields.add(fd)
 		}
 	}
+	for _, cap := range []string{"Query", "Mutation", "Subscription"} {
+		name := strings.ToLower(cap)
+		if t := root.types.get(cap); t != nil && schema.fields.get(name) == nil {
+			_ = schema.fields.add(&FieldDef{Base: Base{N: name}, Type: t})
+		}
+	}
+	root.schema = schema
 }
